@@ -4,4 +4,6 @@ go 1.22
 
 require github.com/vektah/gqlparser/v2 v2.5.0
 
+require github.com/agnivade/levenshtein v1.2.1 // indirect
+
 replace github.com/vektah/gqlparser/v2 => /repo
